@@ -3,7 +3,7 @@
 //! simulator received from a framework instance. They do not influence the
 //! simulation.
 
-use std::cell::RefCell;
+use std::cell::{Cell, RefCell};
 use std::time::Instant;
 
 use maybenot::TriggerAction;
@@ -14,6 +14,9 @@ use crate::SimEvent;
 /// simulated time.
 #[derive(Debug, Clone, PartialEq)]
 pub struct LoggedAction {
+    /// The number of events the simulator had processed before the event that
+    /// caused this action (its index in the unfiltered output trace).
+    pub event_index: usize,
     pub client: bool,
     pub time: Instant,
     pub action: TriggerAction,
@@ -21,11 +24,18 @@ pub struct LoggedAction {
 
 thread_local! {
     static ACTION_LOG: RefCell<Vec<LoggedAction>> = const { RefCell::new(Vec::new()) };
+    static EVENTS_SEEN: Cell<usize> = const { Cell::new(0) };
+}
+
+/// Called once per processed event, before its actions are logged.
+pub(crate) fn begin_event() {
+    EVENTS_SEEN.with(|c| c.set(c.get() + 1));
 }
 
 pub(crate) fn log_action(client: bool, time: Instant, action: &TriggerAction) {
     ACTION_LOG.with(|l| {
         l.borrow_mut().push(LoggedAction {
+            event_index: EVENTS_SEEN.with(|c| c.get()).saturating_sub(1),
             client,
             time,
             action: action.clone(),
@@ -34,8 +44,9 @@ pub(crate) fn log_action(client: bool, time: Instant, action: &TriggerAction) {
 }
 
 /// Take (and clear) the log of actions received by the simulator on this
-/// thread since the last call.
+/// thread since the last call, and restart the event count.
 pub fn take_action_log() -> Vec<LoggedAction> {
+    EVENTS_SEEN.with(|c| c.set(0));
     ACTION_LOG.with(|l| std::mem::take(&mut *l.borrow_mut()))
 }
 
